@@ -239,6 +239,25 @@ func (e *busloadExec) Do(line string) string {
 			}
 		}
 	}
+	// an interface the bus REFUSED is not on the bus: its messages are not sent there and must not
+	// be billed (one of them is too large for the bus; the other one has a static CAN-ID, so that a
+	// refusal that comes late has something to take back)
+	if n%2 == 0 {
+		gn := acmelib.NewNode("ghostnode", acmelib.NodeID(77), 1)
+		gi := gn.Interfaces()[0]
+		g1 := acmelib.NewMessage("ghost_if_static", acmelib.MessageID(902), 8)
+		g1.SetCycleTime(1)
+		g2 := acmelib.NewMessage("ghost_if_big", acmelib.MessageID(903), 9)
+		g2.SetCycleTime(1)
+		if g1.SetStaticCANID(acmelib.CANID(0x7f1)) == nil && gi.AddSentMessage(g1) == nil && gi.AddSentMessage(g2) == nil {
+			if err := bus.AddNodeInterface(gi); err == nil {
+				// accepted after all (not this property's business): it is on the bus, take it off again
+				if err := bus.RemoveNodeInterface(gn.EntityID()); err != nil {
+					e.fail("ghost-remove-refused", line)
+				}
+			}
+		}
+	}
 	load, mls, err := acmelib.CalculateBusLoad(bus, def)
 	if err != nil {
 		if def > 0 {
